@@ -75,6 +75,22 @@ Theorem C06_scan_show_int : forall max n sp, n <= max ->
 Proof. exact scan_show_int. Qed.
 Print Assumptions C06_scan_show_int.
 
+Theorem C06_scan_int_rejects_above : forall max n sp, max < n ->
+  read_uint max (shape_tok sp (TWord (digit_syms (show_dec n)))) = Err E_number.
+Proof. exact scan_int_rejects_above. Qed.
+Print Assumptions C06_scan_int_rejects_above.
+
+Theorem C06_timestamp_decimal_reads_back : forall sp n, n <= 4294967295 ->
+  read_timestamp (shape_tok sp (TWord (map SChar (show_dec n)))) = Ok n.
+Proof. exact read_timestamp_dec. Qed.
+Print Assumptions C06_timestamp_decimal_reads_back.
+
+Theorem C06_owner_roundtrip : forall n rest, wf_name n -> starts_delim rest = true ->
+  exists t, run (Ok st0) (show_name n ++ rest) = run (Ok (0, [t], MSkip false)) rest /\
+            t_spaced t = false /\ read_owner None t = Ok n.
+Proof. exact owner_roundtrip. Qed.
+Print Assumptions C06_owner_roundtrip.
+
 Theorem C06_tokens_reassemble : forall k l, Forall good_sop l -> balanced 0 l = true ->
   exists t, render k (map erase l) = Ok t /\ tokenize (t ++ [ch_lf]) = Ok (expect (is_multi k) false l).
 Proof. exact tokens_reassemble. Qed.
@@ -113,6 +129,16 @@ Theorem C06_nsec3_nests_two_deep :
 Proof. exact (conj nsec3_nests_two_deep (conj nsec3_multiline_tokens paren_depth_must_count)). Qed.
 Print Assumptions C06_nsec3_nests_two_deep.
 
+Theorem C06_ip6_group_text_reads_back : forall n, n < 65536 ->
+  parse_hex16 (show_hex16 n) = Some n /\ mem 58 (show_hex16 n) = false /\ mem 46 (show_hex16 n) = false /\
+  forallb plain_char (show_hex16 n) = true.
+Proof. exact hex16_roundtrip. Qed.
+Print Assumptions C06_ip6_group_text_reads_back.
+
+Theorem C06_ip6_zero_run_sound : forall l, length l = 8%nat -> run_sound l = true.
+Proof. exact zero_run_sound. Qed.
+Print Assumptions C06_ip6_zero_run_sound.
+
 Theorem C06_type_schemas_consistent : forallb schema_ok type_schemas = true.
 Proof. exact type_schemas_ok. Qed.
 Print Assumptions C06_type_schemas_consistent.
@@ -124,6 +150,15 @@ Theorem C06_scan_show_record_typed : forall e, In e type_schemas ->
             read_record ks t = Ok (owner, ttl, cl, s_code e, vs).
 Proof. exact scan_show_record_typed. Qed.
 Print Assumptions C06_scan_show_record_typed.
+
+Theorem C06_scan_show_record_ipseckey : forall g, In g ipseckey_gateways ->
+  let e := resolve_gateway ipseckey_schema g in
+  exists ks, schema_kinds e = Some ks /\
+  forall k owner ttl cl vs, wf_name owner -> ttl <= 4294967295 -> cl < 65536 -> wf_fields ks vs ->
+  exists t, show_record k (typed_record e owner ttl cl vs) = Ok t /\
+            read_record ks t = Ok (owner, ttl, cl, s_code e, vs).
+Proof. exact scan_show_record_ipseckey. Qed.
+Print Assumptions C06_scan_show_record_ipseckey.
 
 (* Base16 / Base64 fields at the end of a record: the C18 encoder's text is a legal
    rest-of-entry word of the schema layer, and the C18 SymbolConverter applied to the word
